@@ -287,9 +287,9 @@ type c15Builder struct {
 	Version  string
 	RoomID   string
 	CreateID string
-	Events   []jv              // every event, in order
-	State    map[string]int    // type + "\x00" + state_key -> index into Events
-	IDs      []string          // event IDs, parallel to Events
+	Events   []jv           // every event, in order
+	State    map[string]int // type + "\x00" + state_key -> index into Events
+	IDs      []string       // event IDs, parallel to Events
 	depth    int64
 }
 
